@@ -74,6 +74,12 @@ check("C18",
       "TLA+ spec (QLind exact GKSL generators) model-checked with TLC; replay of every TLC-emitted generator into the EffectiveLindbladian implementation",
       "DESIGN.md §4 C18")
 
+check("C17",
+      "TLC (MC_C17 over QCatalogue) enumerates the name grammars of all catalogues (states 7/53/345/19/325, POVMs 3/10/27/8/64, gates 15/5/2/18/39204, 13 measurement processes, ensembles) and evaluates the textbook definition of every entry with a rational description exactly (scaled Gaussian-integer vectors and unitaries): norms, purity, Kronecker layout of product names, unitarity, trace preservation, Clifford signed permutations and relations, the named-state action table of every exact gate and role assignment (stabiliser closure; bit semantics of cx / toffoli / fredkin), projector algebra and completeness of POVMs, measurement processes inducing their named POVM, reset semantics of type-2 processes, near-miss names outside the grammar. Binding: library name lists = grammar; every name generated in every listed object form on its system and compared with the exact description (irrational entries: the same formulas in numpy plus relational identities), all forms mutually consistent and physical; Hamiltonian / Lindbladian catalogue exponentiates to the gate catalogue; every emitted action replayed through compose_qoperations; every near-miss name must raise.",
+      "Trusted: textbook definitions as written in QCatalogue.tla; numpy evaluation for entries without a rational description; quick tier samples the 2-qutrit gate names (every 6th single name, 90 seeded pairs), thorough enumerates all 39204.",
+      "TLA+ spec (QCatalogue grammars and exact textbook definitions) model-checked with TLC; replay of every TLC-emitted catalogue item, action and near-miss name into the name dispatchers",
+      "DESIGN.md §4 C17")
+
 check("C07",
       "TLC (MC_C07 over QIndex) enumerates, for 2-3 subsystems with dimensions in {2,3} (four qubits in the quick tier, four mixed subsystems in thorough), EVERY order of the arguments and EVERY grouping of the pairwise products and checks that folding the tree with the pairwise merge of one-hot objects lands at the canonical Kronecker index (ascending names, row-major radices d^2), that this index map is a bijection and equals the mixed-radix serial index. Binding: for every emitted configuration real factor objects on single named subsystems carry seeded generic entries, the tree is evaluated through pairwise tensor_product calls (and the n-ary call), and every entry of the result must be the product the canonical layout names - states, POVMs (outcome layout by ascending name), gates, measurement processes and mixed gate/measurement-process products (outcome layout as the reported shape says), state ensembles, matrix bases; product statistics (qubit x qubit, qubit x qutrit in both name orders) and the qutrit -> two-qubit embedding (physicality and all statistics) on the library's physical catalogue.",
       "Trusted: QIndex!KronIndex as the canonical layout; HS-matrix kinds restricted to total dimension^2 <= 64 (the library builds dense vec-permutation matrices).",
